@@ -1,1 +1,31 @@
-From Rooc Require Import Model.LpFormat.
+(* C17 - LP export denotes the same model.  Statements, `exact`, Print Assumptions only.
+   STATUS: partial.  Target: lp_read (lp_write L) = Some (denote L) (up to Qeq) for finite models with admissible
+   names; proved: the independent reader inverts the writer on every linear expression / row body (coefficients,
+   signs, omitted unit coefficients, omitted zero terms, the all-zero row, the relation).  The whole writer and the
+   reader are run against the REAL text on every check (token equality and lp_read(real text) = denote L). *)
+From Coq Require Import QArith List String.
+From Rooc Require Import Base.XQ Model.Exp Model.Bounds Model.Linearize Model.LpFormat Proof.LpRoundtrip.
+Import ListNotations.
+Local Close Scope Q_scope.
+
+Definition C17_roundtrip_statement : Prop :=
+  forall L : linmodel, Forall (fun v => name_ok v = true) (lm_vars L) ->
+    exists f, lp_read (lp_write L) = Some f /\ lpfile_eqb f (denote L) = true.
+
+Theorem C17_row_body_roundtrip_partial :
+  forall coeffs vars c rhs rest, Forall (fun v => name_ok v = true) vars ->
+    let tail := LWord (cmp_word c) :: LNum rhs :: LNL :: rest in
+    exists terms k,
+      read_terms (List.length (lp_terms coeffs vars ++ tail) + 1) 1%Q (lp_terms coeffs vars ++ tail) [] 0%Q = Some (terms, k, tail)
+      /\ leqb term_eqb terms (nonzero_terms coeffs vars) = true /\ Qeq_bool k 0 = true.
+Proof. exact row_body_roundtrip. Qed.
+
+(* non-vacuity and a whole-file instance: the reader inverts the writer on a concrete model with every section *)
+Example C17_roundtrip_instance :
+  let L := mkLM ["x"; "y"; "z"]%string [("x", TBoolean); ("y", TIntegerRange (-1) 3); ("z", TReal NInf PInf)]%string
+                [mkLRow "cap"%string [Fin 1%Q; Fin (-2)%Q; Fin 0%Q] Le (Fin 3%Q); mkLRow ""%string [Fin 0%Q; Fin 0%Q; Fin 0%Q] Ge (Fin (-1)%Q)]
+                [Fin 0%Q; Fin (5 # 2)%Q; Fin (-1)%Q] (Fin (-4)%Q) DMax in
+  match lp_read (lp_write L) with Some f => lpfile_eqb f (denote L) | None => false end = true.
+Proof. vm_compute. reflexivity. Qed.
+
+Print Assumptions C17_row_body_roundtrip_partial.
